@@ -48,7 +48,33 @@ def build_segment(method, ref, seq, total, text, dc, seqnum, in_payload):
     return smppref.encode_sm(0x5, seqnum, src=b'123', dst=b'456', esm_class=esm, data_coding=dc, short_message=sm, tlvs=tlvs)
 
 
-async def run_receiver(pdus):
+class SteppingClock:
+    """time.monotonic of correlator.py: every reading is later than the one before by a gap from a fixed list (some far longer than
+    the response time-to-live), never adding up to the delivery time-to-live of 3 days"""
+
+    def __init__(self, gaps, limit=200000.0):
+        self.gaps, self.i, self.t, self.limit = gaps, 0, 1000.0, 1000.0 + limit
+
+    def monotonic(self):
+        if self.gaps:
+            g = self.gaps[self.i % len(self.gaps)]
+            self.i += 1
+            if self.t + g < self.limit:
+                self.t += g
+        return self.t
+
+
+async def run_receiver(pdus, gaps=None):
+    import aiosmpplib.correlator as cm
+    old = cm.time
+    cm.time = SteppingClock(gaps) if gaps else old
+    try:
+        return await _run_receiver(pdus)
+    finally:
+        cm.time = old
+
+
+async def _run_receiver(pdus):
     loop = asyncio.get_running_loop()
     esme, hook = sess.make_esme()
     reader, writer, tr, _p = sess.make_stream(loop)
@@ -76,10 +102,13 @@ def gen_family(rng, thorough):
     """Returns (messages, arrival order). message = dict(method, ref, dc, parts, payload)"""
     nmsg = rng.choice([1, 1, 2, 2, 3])
     msgs = []
-    refs = rng.sample(range(0, 256), nmsg)
+    refs = rng.sample([0, 0, 0, 1, 255] + list(range(0, 256)), nmsg)
+    while len(set(refs)) < nmsg:
+        refs = rng.sample(range(0, 256), nmsg)
+    wide = rng.sample([0, 255, 256, 65535, 4660, 513], nmsg)
     for i in range(nmsg):
         method = rng.choice(['sar', 'udh8', 'udh16'])
-        ref = refs[i] if method != 'udh16' else 256 + refs[i] * 200
+        ref = refs[i] if method != 'udh16' else (256 + refs[i] * 200 if rng.random() < 0.6 or wide[i] in refs else wide[i])
         dc = rng.choice([0, 8])
         n = rng.choice([2, 3, 4, 9, 10, 11, 12] + ([255] if thorough and rng.random() < 0.05 else [])) if rng.random() < 0.8 else rng.randint(2, 40)
         parts = []
@@ -107,14 +136,20 @@ def gen_family(rng, thorough):
     return msgs, arrivals
 
 
-def check_family(ctx, msgs, arrivals, cases):
+def gen_gaps(rng):
+    if rng.random() < 0.4:
+        return None
+    return [rng.choice([0.0, 0.0, 0.25, 1.0, 16.0, 20.0, 600.0, 3600.0]) for _ in range(rng.randint(3, 17))]
+
+
+def check_family(ctx, msgs, arrivals, cases, gaps=None):
     pdus = []
     model_arr = []
     for i, (mi, s) in enumerate(arrivals):
         m = msgs[mi]
         pdus.append(build_segment(m['method'], m['ref'], s + 1, len(m['parts']), m['parts'][s], m['dc'], 1000 + i, m['payload']))
         model_arr.append(f'({m["ref"]}, {s + 1}, {len(m["parts"])}, {core.cstr(m["parts"][s])})')
-    received, written, err = asyncio.run(run_receiver(pdus))
+    received, written, err = asyncio.run(run_receiver(pdus, gaps))
     ctx.traces += 1
     obs = []
     for m_, _p in received:
@@ -164,12 +199,14 @@ def run(ctx):
     n = 2000 if ctx.thorough else 90
     for i in range(n):
         msgs, arrivals = gen_family(rng, ctx.thorough)
-        msg = check_family(ctx, msgs, arrivals, cases)
+        gaps = gen_gaps(rng)
+        ctx.count('with_time_passing' if gaps else 'clock_untouched')
+        msg = check_family(ctx, msgs, arrivals, cases, gaps)
         ctx.case(('family', i, repr(arrivals), repr([(m['method'], m['ref'], m['dc']) for m in msgs])), nontrivial=len(arrivals) > 2)
         for m in msgs:
             ctx.count('method_' + m['method'])
         if msg:
-            ctx.violation(msg, {'function': 'family', 'messages': msgs, 'arrivals': arrivals})
+            ctx.violation(msg, {'function': 'family', 'messages': msgs, 'arrivals': arrivals, 'clock_gaps': gaps})
         if i < 1:
             ctx.sample({'messages': [{k: (v if k != 'parts' else v[:3]) for k, v in m.items()} for m in msgs], 'arrivals': arrivals[:12]})
     # exhaustive permutations for small counts
@@ -205,7 +242,7 @@ def replay(ctx, path):
         r = json.load(f)
     if r.get('function') != 'family':
         return 0
-    msg = check_family(ctx, r['messages'], [tuple(a) for a in r['arrivals']], [])
+    msg = check_family(ctx, r['messages'], [tuple(a) for a in r['arrivals']], [], r.get('clock_gaps'))
     print('replay:', msg or 'property holds on this input')
     if msg:
         print(f'VIOLATION property=C09 replay={path}')
